@@ -12,14 +12,16 @@ KIND = {0: "F64", 1: "Dual", 2: "Dual2"}
 
 def obligations(tier):
     obs = []
-    ns = (2,) if tier == "quick" else (2, 3)
+    ns = (2, 3) if tier == "quick" else (2, 3, 4)
     seqs = [["One"], ["Two"], ["One", "Two"], ["Two", "One"], ["Two", "Zero"], ["One", "Zero"], ["Zero", "Two"]]
     if tier == "thorough":
         seqs += [list(p) for p in itertools.product(["Zero", "One", "Two"], repeat=3)]
     for interp in INTERPS:
         for n in ns:
             for seq in seqs:
-                if n == 3 and len(seq) > 2:
+                if n >= 3 and len(seq) > 2:
+                    continue
+                if n == 4 and seq not in (["Two"], ["One", "Two"], ["Two", "One"]):
                     continue
                 obs.append(dict(id=f"{interp} {n} float nodes, switches {seq}", kind="float", interp=interp, n=n, seq=seq))
         # nodes that already are dual numbers sharing ONE user variable (same variable list on both nodes)
@@ -32,7 +34,7 @@ def obligations(tier):
     return obs
 
 
-def partials(m, interp, ts, Y, i, j, x, v, t0):
+def partials(m, interp, ts, Y, i, j, x, v, t0, mm=None):
     """(d_i, d_j, d_ii, d_ij, d_jj): derivatives of the closed form w.r.t. the two node values; v = the looked-up value (F)"""
     one, zero = F(1), F(0)
     Mu, Dv, Sb = (lambda a, b: fr_bin("mul", a, b)), (lambda a, b: fr_bin("div", a, b)), (lambda a, b: fr_bin("sub", a, b))
@@ -48,8 +50,12 @@ def partials(m, interp, ts, Y, i, j, x, v, t0):
     ci, cj, first = exponents(interp, ts, i, j, x, t0)
     if first is not None:
         c, cjf = first
-        ci = fr_ite(c, zero, ci)
-        cj = fr_ite(c, cjf, cj)
+        gc = settled(mm, c) if (mm is not None and not isinstance(c, bool)) else (c if isinstance(c, bool) else None)
+        if gc is True:
+            ci, cj = zero, cjf
+        elif gc is None:
+            ci = fr_ite(c, zero, ci)
+            cj = fr_ite(c, cjf, cj)
     di = Dv(Mu(v, ci), Y[i]); dj = Dv(Mu(v, cj), Y[j])
     dii = Dv(Mu(Mu(v, ci), Sb(ci, one)), Mu(Y[i], Y[i]))
     djj = Dv(Mu(Mu(v, cj), Sb(cj, one)), Mu(Y[j], Y[j]))
@@ -92,6 +98,12 @@ def worker(ob):
             m.assume(z3.Or(*[t0 == t for t in ts]))
             for t in ts:
                 m.assume(t0 <= t)
+        def t0_now():
+            # once the sort has fixed the date order on this path, the first node is a definite one
+            for k in range(n):
+                if settled(m, z3.And(*[ts[k] <= t for t in ts])) is True:
+                    return ts[k]
+            return t0
         rank = [sum([z3.If(ts[l] < ts[k], 1, 0) for l in range(n) if l != k], z3.IntVal(0)) for k in range(n)]
         if kind == "float":
             r = mk_curve(m, S, interp, ts, Y)
@@ -122,17 +134,25 @@ def worker(ob):
                             if i == j:
                                 continue
                             sel = selects(ts, i, j, x)
-                            di, dj, dii, dij, djj = partials(m, interp, ts, Y, i, j, x, v, t0)
+                            g_ = settled(m, sel)
+                            if g_ is False:
+                                continue
+                            if g_ is True:
+                                sel = z3.BoolVal(True)
+                            di, dj, dii, dij, djj = partials(m, interp, ts, Y, i, j, x, v, t0_now() if interp == "linear_zero_rate" else t0, m)
                             cl = []
+                            rk = lambda a_, r_: (lambda g: g if g is not None else (rank[a_] == r_))(settled(m, rank[a_] == r_))
                             for r_ in range(n):
-                                want = fr_bin("add", fr_ite(rank[i] == r_, di, F(0)), fr_ite(rank[j] == r_, dj, F(0)))
+                                want = fr_bin("add", fr_ite(rk(i, r_), di, F(0)), fr_ite(rk(j, r_), dj, F(0)))
                                 cl.append(fr_eq(str_coef1(S, inner, tags[r_]), want))
                             if cur == 2:
                                 for r1 in range(n):
                                     for r2 in range(n):
                                         want = F(0)
                                         for (a, b, dd) in ((i, i, dii), (i, j, dij), (j, i, dij), (j, j, djj)):
-                                            want = fr_bin("add", want, fr_ite(z3.And(rank[a] == r1, rank[b] == r2), dd, F(0)))
+                                            c1_, c2_ = rk(a, r1), rk(b, r2)
+                                            cc_ = False if (c1_ is False or c2_ is False) else True if (c1_ is True and c2_ is True) else z3.And(*[c for c in (c1_, c2_) if c is not True])
+                                            want = fr_bin("add", want, fr_ite(cc_, dd, F(0)))
                                         cl.append(fr_eq(str_coef2(S, inner, tags[r1], tags[r2]), want))
                             props.append((f"step {si}: gradient/Hessian = derivatives of the closed form on nodes {i},{j}", z3.Implies(sel, z3.And(*cl))))
             scn = {"nodes_kind": "F64"}
@@ -174,7 +194,12 @@ def worker(ob):
                         if i == j:
                             continue
                         sel = selects(ts, i, j, x)
-                        di, dj, dii, dij, djj = partials(m, interp, ts, Y, i, j, x, v, t0)
+                        g_ = settled(m, sel)
+                        if g_ is False:
+                            continue
+                        if g_ is True:
+                            sel = z3.BoolVal(True)
+                        di, dj, dii, dij, djj = partials(m, interp, ts, Y, i, j, x, v, t0_now() if interp == "linear_zero_rate" else t0, m)
                         G = [F(g) for g in gs]
                         cl = []
                         for nm in sorted(set(names)):
@@ -314,11 +339,11 @@ def run(tier, seed):
     if tot["panics"]:
         tot["undecided"].append(f"panic leaves: {tot['panics'][:3]}")
     standard_finish(PID, ev, obs, results, tot, lambda f: {"site": f.get("ob", "").split(" ")[0]},
-                    bounds={"curves": "2 (quick) / 2..3 (thorough) nodes with symbolic distinct dates (every supply order), symbolic positive values, symbolic query date, all 5 rules",
+                    bounds={"curves": "2..3 (quick) / 2..4 (thorough; 4 nodes with the three switch sequences that reach second order) nodes with symbolic distinct dates (every supply order), symbolic positive values, symbolic query date, all 5 rules",
                             "switches": "sequences of length 1..2 (quick) / ..3 (thorough) over orders 0,1,2 from float nodes; nodes given as Dual/Dual2 on ONE shared user variable or separate variables, with symbolic sensitivities, switched 1->2, 2->1, 1->2->1",
                             "checks": "values unchanged by every switch; node at sorted position i tagged '<id>i' with unit sensitivity; gradient and Hessian of a looked-up value = derivatives of the closed form w.r.t. the two active node values (0 elsewhere), by variable name; existing names kept; index value; nodes_into_order on unsorted supply",
-                            "outside": "more than 3 nodes; longer switch sequences"},
-                    rule="obligation = (rule, node count, switch sequence | user-variable layout); paths = sort orders x index branches; one validity query per path; counterexamples replayed natively and compared with finite differences of the float curve",
+                            "outside": "more than 4 nodes; longer switch sequences"},
+                    rule="obligation = (rule, node count, switch sequence | user-variable layout); paths = sort orders x index branches; one validity query per path; counterexamples replayed natively and compared with finite differences of the rule's closed form evaluated in Python floats (independent of the code under test)",
                     assumptions=["reals; exp/ln uninterpreted with exp(ln y)=y on node values", "derivatives of the log-type rules are stated through v = y_i^c_i y_j^c_j with the exponents of C11", "Dual/Dual2 operators are those checked by C01/C02 (interpreted again)"])
 
 
